@@ -34,7 +34,7 @@ func zzC05_duplicate() {
 	}
 	// message IDs: an ordinary one, and the one the connection itself will use for its next outgoing message
 	own := int32(uint16(cc.msgID.Load() + 1))
-	mid := []int32{7, own, 65535}[symChoose("mid", 3)]
+	mid := []int32{7, own, 65535, 0}[symChoose("mid", 4)] // every 16-bit value is a message ID, 0 included
 	token := message.Token{0xA1, 0xA2}
 	t1 := symI64("t1")
 	t2 := symI64("t2")
